@@ -81,6 +81,12 @@ type HotNode struct {
 	inc      *Incarnation
 	Restarts int
 	Panics   []string // non-sentinel panics of any task of this node
+	// what was durable when the last incarnation died (read from its LevelDB
+	// before the handle is closed)
+	Deaths      int
+	DeadPending map[string]string
+	DeadDeleted map[string]bool
+	DeadOffset  uint64
 }
 
 // Incarnation is one process lifetime of a hot node.
@@ -200,6 +206,9 @@ func (w *World) closeDeadNode(n *HotNode) {
 	inc.cancel()
 	w.settle()
 	w.collectPanics(n)
+	n.DeadPending, n.DeadDeleted = pendingRaw(inc)
+	n.DeadOffset, _ = inc.real.LoadOffset()
+	n.Deaths++
 	_ = inc.real.SimClose()
 	for _, db := range inc.gs.extra {
 		_ = db.Close()
